@@ -168,18 +168,16 @@ Definition mode_now (id mode : N) : option hres :=
   if mode =? 0 then None else if mode =? 1 then Some (HSome id) else Some HNone.
 Definition res_of (id r : N) : hres := if r =? 0 then HSome id else HNone.
 
-(* several requests decoded in one dispatcher poll: all call_service calls first, then the
-   spawned tasks of the handlers that were ready at once, in spawn order *)
-Fixpoint arrive_pairs (s : rq) (l : list N) (later : list (N * hres)) (fuel : nat) : rq * list (N * hres) :=
+(* several requests arriving in one write: since the dispatcher yields after every spawned call
+   (io.rs, "let the spawned call start before the next frame is read") the spawned task of a handler
+   that is ready at once runs before the next frame is decoded, so a batch behaves as the same
+   arrivals one after the other *)
+Fixpoint arrive_pairs (s : rq) (l : list N) (fuel : nat) : rq :=
   match fuel with
-  | O => (s, later)
+  | O => s
   | S k => match l with
-           | id :: mode :: r =>
-             match call_service s id (mode_now id mode) with
-             | (s1, Some d) => arrive_pairs s1 r (later ++ [d]) k
-             | (s1, None) => arrive_pairs s1 r later k
-             end
-           | _ => (s, later)
+           | id :: mode :: r => arrive_pairs (arrive s id (mode_now id mode)) r k
+           | _ => s
            end
   end.
 
@@ -187,9 +185,7 @@ Definition step_field (s : rq) (f : list N) : rq :=
   match f with
   | [1; id; mode] => arrive s id (mode_now id mode)
   | [2; id; r] => complete s id (res_of id r)
-  | 3 :: l =>
-    let '(s1, later) := arrive_pairs s l [] (length l) in
-    fold_left (fun st d => handle_result st (snd d) (fst d)) later s1
+  | 3 :: l => arrive_pairs s l (length l)
   | _ => s
   end.
 
